@@ -16,7 +16,8 @@ LOCAL_RESERVED = ["add_tag", "itemize", "get_tag_name", "_tag_names", "_tag_coun
                   "__init__", "__doc__", "__module__"]
 GLOBAL_RESERVED = ["TagLibrary", "DuplicateTagError", "TagNotFoundError", "_module_library", "__name__", "__getattr__"]
 ARBITRARY = ["", "x y", "1abc", "a.b", "NONE ", "none", "_beta", "__delta__", "_x", "__slots__", "\uff21", "A", "x\u00b2", "\u2126",
-             "%s", "50%", "{0}", "%(x)s", "{tag_id}", "a\nb", "\\"]
+             "%s", "50%", "{0}", "%(x)s", "{tag_id}", "a\nb", "\\",
+             "N", "ON", "NO", "ONE", "in", "in_", "class", "class_", "None", "None_", "is", "_in", "NONE_"]
 
 
 def run_program(prog):
